@@ -433,6 +433,119 @@ def _task(task):
     return out
 
 
+# ------------------------------------------------------------------------------------------------ race-detector side pass
+def parse_tsan(text):
+    """[(funcA, funcB, excerpt)] for every data-race report whose two accesses both have a frame in the library sources"""
+    import re
+    out = []
+    for blk in text.split("WARNING: ThreadSanitizer: data race")[1:]:
+        blk = blk.split("SUMMARY: ThreadSanitizer")[0]
+        stacks, cur = [], None
+        for line in blk.splitlines():
+            if re.match(r"^  (Previous )?(atomic )?(read|write|Read|Write|Atomic read|Atomic write) of size", line.strip() and line):
+                cur = []
+                stacks.append(cur)
+            elif line.startswith("  ") and not line.startswith("    ") and line.strip():
+                cur = None          # another section (Location, Mutex, Thread ...)
+            elif cur is not None and line.strip().startswith("#"):
+                cur.append(line.strip())
+        fns = []
+        for st in stacks[:2]:
+            fn = None
+            for fr in st:
+                m = re.match(r"#\d+ (.+?) (/\S*/src/lib/\S+):\d+", fr)
+                if m:
+                    fn = re.sub(r"\(.*", "", m.group(1)).strip()
+                    break
+            fns.append(fn)
+        if len(fns) == 2 and all(fns):
+            out.append((min(fns), max(fns), blk[:1800]))
+    return out
+
+
+def _tsan_task(task):
+    """every schedule with at most one preemption of one body under ThreadSanitizer; the scheduler's hand-overs are invisible to the detector
+    (engine/p11sh/rawsync.c), the library's mutexes are announced to it: a report is a pair of conflicting accesses that no library lock orders"""
+    import glob
+    name, max_runs = task
+    ctx = core._W["ctx"]
+    out = {"races": {}, "harness": None, "name": name, "runs": 0, "capped": False}
+    sh = ctx.sh
+    logs = os.path.join(sh.statedir, "..", "tsan.log*")
+    try:
+        sh.snap()
+        try:
+            threads, final = body_defs()[name](ctx)
+
+            def run(pref):
+                r = sh.cmd("RUNTHREADS spec=" + spec_text(threads, final, schedule=pref))
+                out["runs"] += 1
+                for lf in glob.glob(logs):
+                    try:
+                        t = open(lf, errors="replace").read()
+                        os.unlink(lf)
+                    except OSError:
+                        continue
+                    for fa, fb, ex in parse_tsan(t):
+                        out["races"].setdefault("C18|data-race|%s|%s" % (fa, fb), {"body": name, "schedule": list(pref), "report": ex})
+                return r
+            for lf in glob.glob(logs):
+                os.unlink(lf)
+            r = run([])
+            pts = r.get("points") or []
+            ch = [pt[3].index(pt[1]) for pt in pts]
+            for i, pt in enumerate(pts):
+                for alt in range(1, len(pt[3])):
+                    if out["runs"] >= max_runs:
+                        out["capped"] = True
+                        break
+                    run(ch[:i] + [alt])
+        finally:
+            sh.unwind(0)
+    except Died as d:
+        out["harness"] = "tsan pass %s: shell died %r" % (name, d.info)
+        core._fresh_shell()
+    except Exception:
+        out["harness"] = "tsan pass %r: %s" % (task, traceback.format_exc())
+        try:
+            core._fresh_shell()
+        except Exception:
+            pass
+    return out
+
+
+def tsan_pass(rep, quick):
+    """returns the coverage dict of the side pass; races go to rep as violations (signature = the two library functions)"""
+    names = sorted(body_defs())
+    if os.environ.get("C18_BODIES"):
+        names = [n for n in names if n in os.environ["C18_BODIES"].split(",")]
+    ex = Explorer(C18(), variant="ossl-tsan")
+    cov = {"bodies": len(names), "schedules": 0, "capped_bodies": [], "distinct_races": 0}
+    found = {}
+    try:
+        for r in ex.pool.imap_unordered(_tsan_task, [(n, 300 if quick else 3000) for n in names], chunksize=1):
+            if r["harness"]:
+                rep.harness_errors.append(r["harness"])
+            cov["schedules"] += r["runs"]
+            if r["capped"]:
+                cov["capped_bodies"].append(r["name"])
+            for sig, det in r["races"].items():
+                found.setdefault(sig, det)
+        # replay before report: the body's pass is repeated and must show the same pair again
+        again = {}
+        for r in ex.pool.imap_unordered(_tsan_task, [(n, 300 if quick else 3000) for n in sorted({d["body"] for d in found.values()})], chunksize=1):
+            again[r["name"]] = set(r["races"])
+        for sig, det in sorted(found.items()):
+            if sig in again.get(det["body"], ()):
+                rep.add_violation({"signature": sig, "detail": det, "task": ["tsan", det["body"]], "history": [], "action": None, "variant": "ossl-tsan", "store": "file", "replay_module": "c18_threads", "property": "C18"})
+            else:
+                rep.harness_errors.append("data race %s (body %s) did not show again when the body was repeated" % (sig, det["body"]))
+    finally:
+        ex.close()
+    cov["distinct_races"] = len(found)
+    return cov
+
+
 def _replay_one(task):
     """run exactly one schedule of a body (for confirmation / replay)"""
     name, prefixes, _b, _m = task
